@@ -241,11 +241,19 @@ def monitor(o: Obs):
     fi, li = idx.get(id(o.model.first_token), -1), idx.get(id(o.model.last_token), -1)
     if printed != o.text:
         trivia = set(e['ignored'])
+        inline = bool(getattr(e['targets'][o.rule], 'INLINE', False))
         outside = store[:max(fi, 0)] + store[li + 1:] if 0 <= fi <= li else store
-        if (not o.is_file and concat_ok and 0 <= fi <= li and printed == o.text[off[fi]:off[li + 1]]
-                and all((not t.raw_text) or type(t).RULE in trivia for t in outside)):
+        span_only = (not o.is_file and concat_ok and 0 <= fi <= li and printed == o.text[off[fi]:off[li + 1]]
+                     and all((not t.raw_text) or type(t).RULE in trivia for t in outside))
+        # the known finding, narrowly: (a) comment attribution off and comment/blank text outside the model,
+        # (b) an INLINE target (no comment attribution at all) with blanks/comments around it
+        if span_only and (inline or not o.acc):
             fails.append((SIG_D12, 'a non-File parse target prints only its own span although parse() accepted '
                                    '(and the store holds) blank/comment text outside it'))
+        elif span_only:
+            fails.append(('C01:claimed-target-drops-outside-text',
+                          f'print(parse(text, {o.rule}, auto_claim_comments=True)) leaves out comment/blank lines around '
+                          'the model that comment attribution should have made part of it'))
         else:
             fails.append(('C01:print-differs', f'print(parse(text, {o.rule}, auto_claim_comments={o.acc})) != text'))
     spans = []
@@ -536,8 +544,11 @@ class Gen:
         """Accepted text outside the model's own span (the D12 class)."""
         if inline:
             return self.c([' ', '  ', '\t', '']) + text + self.c([' ', '  ', '\t'])
-        lead = self.c(['', '; lead' + self.nl(), ';a' + self.nl() + ';b' + self.nl(), self.nl()])
-        trail = self.c(['', self.nl() + '; trail', self.nl() + '; t1' + self.nl() + '; t2', '  '])
+        ind = ''
+        if rule in ('posting', 'meta_item') and text[:1] in ' \t':
+            ind = text[:len(text) - len(text.lstrip(' \t'))]         # comments at the model's own indentation
+        lead = self.c(['', ind + '; lead' + self.nl(), ind + ';a' + self.nl() + ind + ';b' + self.nl(), self.nl()])
+        trail = self.c(['', self.nl() + ind + '; trail', self.nl() + ind + '; t1' + self.nl() + ind + '; t2', '  '])
         return lead + text + trail
 
 
@@ -568,8 +579,40 @@ CORPUS = [
 ]
 
 
+ODD_CHARS = ['\ufeff', '\x00', '\u200b', '\x0c', '\x1a', '\r', '\xa0', '\u2028', '\x85', '\x0b', '\u200e', '\x7f',
+             '\ufffe', '\u00ad', '\u3000', '\x1c']
+
+
+def odd_variants(rng, text: str, n: int):
+    """A valid text with one odd character prepended / appended / inserted: mostly rejected by the unchanged parser;
+    whenever parse() accepts one, the C01 statement must hold for it like for any other text."""
+    for _ in range(n):
+        ch = rng.choice(ODD_CHARS)
+        k = rng.random()
+        if k < .4:
+            yield ch + text
+        elif k < .6:
+            yield text + ch
+        else:
+            i = rng.randrange(0, len(text) + 1)
+            yield text[:i] + ch + text[i:]
+
+
 def gen_inputs(ctx):
     """Yields (rule, text, origin)."""
+    for rule, text, origin in gen_inputs0(ctx):
+        yield rule, text, origin
+        if origin in ('corpus', 'ledger', 'snippet') and text:
+            n = 1 if origin == 'ledger' and ctx.rng.random() < .5 else 2 if origin != 'ledger' else 0
+            for t in odd_variants(ctx.rng, text, n):
+                yield rule, t, 'odd-char'
+        if origin == 'snippet+outside' and '\r' not in text and '\n' in text:
+            # the same text with the other line-end conventions (comment attribution must not depend on them)
+            yield rule, text.replace('\n', '\r\n'), 'snippet+outside:crlf'
+            yield rule, text.replace('\n', '\r\r\n'), 'snippet+outside:crcrlf'
+
+
+def gen_inputs0(ctx):
     e = env()
     for rule, text in CORPUS:
         yield rule, text, 'corpus'
@@ -587,7 +630,7 @@ def gen_inputs(ctx):
             g = Gen(ctx.rng)
             t = g.snippet(rule)
             yield rule, t, 'snippet'
-            if k % 3 == 0:
+            if k % 3 == 0 or not inline:
                 yield rule, g.with_outside_trivia(rule, t, inline), 'snippet+outside'
             if inline and '"' not in t:
                 yield rule, g.multiline(t), 'snippet+multiline'
